@@ -334,11 +334,13 @@ type SimPacketConn struct {
 	WriteErr     error
 	reset        bool
 	hsDone       bool
+	env          *Env
+	OutAt        []time.Duration // write times of Out (simulated)
 }
 
 func NewPacketConn(e *Env, l, r *net.UDPAddr) *SimPacketConn {
 	e.Stub("pion/dtls record layer (ideal datagram-preserving shim with scripted handshake)")
-	return &SimPacketConn{rwake: make(chan struct{}, 1), closed: make(chan struct{}), laddr: l, raddr: r}
+	return &SimPacketConn{rwake: make(chan struct{}, 1), closed: make(chan struct{}), laddr: l, raddr: r, env: e}
 }
 
 func (c *SimPacketConn) HandshakeContext(ctx context.Context) error {
@@ -394,8 +396,20 @@ func (c *SimPacketConn) Write(b []byte) (int, error) {
 	}
 	c.mu.Lock()
 	c.Out = append(c.Out, append([]byte(nil), b...))
+	if c.env != nil {
+		c.OutAt = append(c.OutAt, c.env.Now())
+	}
 	c.mu.Unlock()
 	return len(b), nil
+}
+
+// TakeOutAt is TakeOut plus the simulated time at which each record was written.
+func (c *SimPacketConn) TakeOutAt() ([][]byte, []time.Duration) {
+	c.mu.Lock()
+	defer c.mu.Unlock()
+	o, at := c.Out, c.OutAt
+	c.Out, c.OutAt = nil, nil
+	return o, at
 }
 
 func (c *SimPacketConn) Close() error {
@@ -432,7 +446,7 @@ func (c *SimPacketConn) Deliver(b []byte) {
 func (c *SimPacketConn) TakeOut() [][]byte {
 	c.mu.Lock()
 	o := c.Out
-	c.Out = nil
+	c.Out, c.OutAt = nil, nil
 	c.mu.Unlock()
 	return o
 }
